@@ -136,7 +136,16 @@ def lifecycle(spec, log):
                 return {'fatal': 'no server'}
             log.ev('server', pid=server.pid, addr=list(server.addr))
             kw['host'] = server.addr
-        w = bounded('create', lambda: cls(target, **kw), 60)
+        if spec.get('in_context') and 'Remote' in spec['cls']:
+            # the worker is created inside a remote context, which supplies target and defaults
+            from pyworkers.remote_context import RemoteContext
+            ctx = bounded('create_context', lambda: RemoteContext(4242, host=server.addr, target=target, args=kw.pop('args'), kwargs=kw.pop('kwargs')), 60)
+            if ctx is HANG or isinstance(ctx, Raised):
+                return {'fatal': 'context failed'}
+            kw['context'] = 4242
+            w = bounded('create', lambda: cls(None, **kw), 60)
+        else:
+            w = bounded('create', lambda: cls(target, **kw), 60)
         if w is HANG or isinstance(w, Raised):
             return {'fatal': 'create failed'}
         wid = w.id
